@@ -175,6 +175,11 @@ def marker_laws(chk):
         if len(by_var[var]) >= 2:
             x, y = rnd.sample(by_var[var], 2)
             triples.append((x, y, rnd.choice(keys)))
+    # operands that only the parser produces (`x and y or z` goes through MarkerUnion.of, not through cnf/dnf)
+    texts = [mx._show_key(k) for k in keys if not k[4]]
+    for _ in range(150 if chk.tier == "quick" else 2000):
+        x, y, z = rnd.sample(texts, 3)
+        triples.append((("TEXT", f"{x} and {y} or {z}"), rnd.choice(keys), rnd.choice(keys)))
     src = str(chk.src)
     per = max(1, (len(triples) + chk.jobs * 3 - 1) // (chk.jobs * 3))
     total = nf = 0
